@@ -60,6 +60,13 @@ class KList(Kind):
         self.name = f"List[{elem!r}]"
 
 
+class KSeq(Kind):
+    """an immutable sequence VALUE stored directly in a field (used for ghost logs: cannot alias anything)"""
+    def __init__(self, elem: Kind):
+        self.elem = elem
+        self.name = f"Seq[{elem!r}]"
+
+
 class KDeque(Kind):
     def __init__(self, elem: Kind):
         self.elem = elem
@@ -107,6 +114,8 @@ def parse_kind(s) -> Kind:
             return KList(parse_kind(parts[0]))
         if head == "Deque":
             return KDeque(parse_kind(parts[0]))
+        if head == "Seq":
+            return KSeq(parse_kind(parts[0]))
         if head == "Set":
             return KSet(parse_kind(parts[0]))
         if head == "Dict":
@@ -140,6 +149,8 @@ def layout(k: Kind):
         return [("", k.sort)]
     if isinstance(k, KNone):
         return []
+    if isinstance(k, KSeq):
+        return [("", f"(Seq {elem_sort(k.elem)})")]
     if isinstance(k, (KRef, KList, KDeque, KSet, KDict)):
         return [("", INT)]
     if isinstance(k, KOpt):
@@ -354,6 +365,8 @@ def to_comps(v: Value, k: Kind, default):
         return [v.t]
     if isinstance(k, KNone):
         return []
+    if isinstance(k, KSeq):
+        return [v.t]
     if isinstance(k, (KRef, KList, KDeque, KSet, KDict)):
         if not hasattr(v, "t"):
             raise TypeError(f"cannot store {v!r} as {k!r}")
@@ -387,6 +400,8 @@ def from_comps(k: Kind, comps):
             return VNone
         if isinstance(kk, KRef):
             return VRef(comps.pop(0), kk.cls)
+        if isinstance(kk, KSeq):
+            return VSeq(comps.pop(0), kk.elem)
         if isinstance(kk, KList):
             return VList(comps.pop(0), kk.elem)
         if isinstance(kk, KDeque):
